@@ -110,6 +110,76 @@ Definition rnd_step (x : Z) (r : report) : res :=
 (* left end of the i-th interval of the partition of [0, K) induced by x |-> (x*n)/K *)
 Definition lo (K n i : Z) : Z := (i * K + n - 1) / n.
 
+(* fastrand.Uint32n as Go computes it: uint32((uint64(x) * uint64(n)) >> 32), every
+   conversion and the 64-bit multiplication written with its wrap *)
+Definition uint32n_go (x n : Z) : Z :=
+  ((((x mod two32) * (n mod two32)) mod two64) / two32) mod two32.
+
+(* ---- constructors (sd/loadbalancing.go, proxy/balancing.go) ----
+   what a constructor can see of its subscriber: a sd.FixedSubscriber value (with its
+   list) or anything else *)
+Inductive sub_shape := SFixed (hs : list string) | SOther.
+
+(* the balancer that was built: the single-host balancer (answers h without asking the
+   subscriber), round robin with its initial counter, random *)
+Inductive balancer := BNop (h : string) | BRR (c0 : Z) | BRandom.
+
+(* NewRoundRobinLB: a fixed subscriber with exactly one host gets the single-host balancer;
+   with l > 1 hosts the counter starts at fastrand.Uint32n(l) (x: the 32-bit draw);
+   otherwise at 0 *)
+Definition new_rr (s : sub_shape) (x : Z) : balancer :=
+  match s with
+  | SFixed [h] => BNop h
+  | SFixed ((_ :: _ :: _) as hs) => BRR (uint32n x (Z.of_nat (List.length hs)))
+  | _ => BRR 0
+  end.
+
+Definition new_random (s : sub_shape) : balancer :=
+  match s with SFixed [h] => BNop h | _ => BRandom end.
+
+(* NewBalancer: round robin iff GOMAXPROCS = 1 *)
+Definition new_balancer (procs : Z) (s : sub_shape) (x : Z) : balancer :=
+  if procs =? 1 then new_rr s x else new_random s.
+
+(* the twelve exported middleware constructors and the balancer each one builds *)
+Inductive ckind := CGeneric | CRoundRobin | CRandom.
+Definition mw_constructors : list (string * ckind) :=
+  [("NewLoadBalancedMiddleware", CGeneric);
+   ("NewLoadBalancedMiddlewareWithSubscriber", CGeneric);
+   ("NewLoadBalancedMiddlewareWithLogger", CGeneric);
+   ("NewLoadBalancedMiddlewareWithSubscriberAndLogger", CGeneric);
+   ("NewRoundRobinLoadBalancedMiddleware", CRoundRobin);
+   ("NewRoundRobinLoadBalancedMiddlewareWithSubscriber", CRoundRobin);
+   ("NewRoundRobinLoadBalancedMiddlewareWithLogger", CRoundRobin);
+   ("NewRoundRobinLoadBalancedMiddlewareWithSubscriberAndLogger", CRoundRobin);
+   ("NewRandomLoadBalancedMiddleware", CRandom);
+   ("NewRandomLoadBalancedMiddlewareWithSubscriber", CRandom);
+   ("NewRandomLoadBalancedMiddlewareWithLogger", CRandom);
+   ("NewRandomLoadBalancedMiddlewareWithSubscriberAndLogger", CRandom)].
+
+Definition build (k : ckind) (procs : Z) (s : sub_shape) (x : Z) : balancer :=
+  match k with
+  | CGeneric => new_balancer procs s x
+  | CRoundRobin => new_rr s x
+  | CRandom => new_random s
+  end.
+
+(* M calls of a built balancer over a fixed list hs (xs: the generator's draws, used by the
+   random balancer only) *)
+Definition bal_run (b : balancer) (hs : list string) (xs : list Z) : list res :=
+  match b with
+  | BNop h => map (fun _ => Ok h) xs
+  | BRR c0 => snd (rr_run c0 (map (fun _ => {| rp_hosts := hs; rp_err := None |}) xs))
+  | BRandom => map (fun x => rnd_step x {| rp_hosts := hs; rp_err := None |}) xs
+  end.
+
+(* the middleware around a balancer result: an error is returned and the next proxy is not
+   called; otherwise the next proxy sees the URL host ++ path.  Nothing of an earlier pass
+   of the same request enters *)
+Inductive mwres := MwNext (url : string) | MwErr (e : herr) | MwPanic.
+Definition mw_step (o : res) (path : string) : mwres :=
+  match o with Ok h => MwNext (h ++ path)%string | Err e => MwErr e | Panic => MwPanic end.
+
 (* ---- sd.NewRandomFixedSubscriber ----
    builds a NEW list holding a permutation of its argument (which permutation is decided by
    math/rand: external); the caller's slice - possibly the list a balancer is reading - is
